@@ -96,6 +96,7 @@ func scenBlock(rng *rand.Rand, tr *sim.Trace, seg int, events int) {
 	defer h.close()
 	toks := map[string][]byte{}
 	var open []*call
+	maintainers := 0
 	for i := 0; i < events; i++ {
 		if late && i == events/3 {
 			// queries already in flight to addresses that are about to be blocked
@@ -169,9 +170,19 @@ func scenBlock(rng *rand.Rand, tr *sim.Trace, seg int, events int) {
 			h.flush(false)
 		case 9: // a traversal over a network that lists blocked and unblocked contacts
 			done := make(chan struct{})
+			kind := rng.Intn(3)
+			if kind == 2 && maintainers == 0 {
+				// table maintenance: bootstrap, questionable-node pings and bucket refreshes, until Close
+				maintainers++
+				go h.srv.TableMaintainer()
+				go func() { time.Sleep(150 * time.Millisecond); close(done) }()
+				h.respond(done, pool, map[string]bool{})
+				h.flush(false)
+				continue
+			}
 			go func() {
 				defer close(done)
-				if rng.Intn(2) == 0 {
+				if kind == 0 {
 					h.srv.Bootstrap()
 				} else {
 					a, err := h.srv.AnnounceTraversal(randID(rng))
